@@ -4,6 +4,7 @@
 //	-mode replay     TLC-generated behaviours of concurrent savers (obtain a copy by NewEntity or Fetch, edit, Save),
 //	                 every step carrying the outcome and the stored document Om.tla predicts; savers act in TLC's
 //	                 order; after every Save the stored document is read back with Fetch and FetchCache
+//	-mode types      the cells of OmTypes.tla (repository, place, field type, boundary class -> "equal"), see types.go
 //	-mode roundtrip  generated field values of every type conv.go / encoding/json support: Save, Fetch, FetchCache
 //	                 must return an entity equal to the saved one, over several versions of the same entity
 package main
@@ -30,7 +31,7 @@ import (
 )
 
 var (
-	mode = flag.String("mode", "replay", "replay | roundtrip")
+	mode = flag.String("mode", "replay", "replay | roundtrip | types")
 	inF  = flag.String("in", "", "replay: ndjson of behaviours")
 	runs = flag.Int("runs", 300, "roundtrip: number of generated entities per repository")
 )
@@ -65,7 +66,9 @@ type HashEnt struct {
 	PInt  *int64
 	PBool *bool
 	PNst  *Nested
-	Exp   time.Time `redis:",exat"`
+	T     time.Time  // struct: stored as JSON text (RFC 3339 with nanoseconds and zone offset)
+	PT    *time.Time // pointer to struct: JSON text, nil = null
+	Exp   time.Time  `redis:",exat"`
 }
 
 // JSONEnt: stored with encoding/json as one RedisJSON document.
@@ -88,6 +91,9 @@ type JSONEnt struct {
 	PBool *bool
 	PNst  *Nested
 	PF64  *float64
+	U64   uint64
+	T     time.Time
+	PT    *time.Time
 	Exp   time.Time `redis:",exat"`
 }
 
@@ -105,6 +111,8 @@ type f1vals struct {
 	NstS  []Nested
 	Raw   json.RawMessage
 	Map   map[string]int64
+	U64   uint64
+	T     time.Time
 }
 type f2vals struct {
 	Str  string
@@ -112,6 +120,7 @@ type f2vals struct {
 	Bool bool
 	Nst  Nested // the f3 group of Om.tla: pointer to struct
 	F64  float64
+	T    time.Time // f3 group as well (*time.Time)
 }
 
 // strPool: valid UTF-8 (control characters included); binPool adds byte strings that are not valid UTF-8, used only where
@@ -121,6 +130,19 @@ var strPool = []string{"", " ", "plain", "with space", "ünï©ode ✓", "quote\
 var binPool = append([]string{"\x00\x01\xff\xfe binary", "\xc3\x28", "\r\n$5\r\n"}, strPool...)
 var intPool = []int64{0, 1, -1, 42, math.MaxInt64, math.MinInt64, 1 << 53, -(1 << 53) - 1, 1700000000000}
 var f64Pool = []float64{0, 1, -1, 0.5, -0.25, 1024, 1e10, 3.0 / 1024, -7.625}
+var u64Pool = []uint64{0, 1, math.MaxUint64, 1 << 63, 1<<53 + 1}
+
+// timePool: instants with nanoseconds, microseconds, non-UTC zone offsets, before the epoch, the zero time
+var timePool = []time.Time{
+	{},
+	time.Date(2023, 11, 14, 22, 13, 20, 123456789, time.UTC),
+	time.Date(2023, 11, 14, 22, 13, 20, 1500000, time.FixedZone("", 5*3600+1800)),
+	time.Date(1969, 12, 31, 23, 59, 59, 999999999, time.FixedZone("", -8*3600)),
+	time.Date(2038, 1, 19, 3, 14, 8, 1, time.UTC),
+	time.Date(9999, 12, 31, 23, 59, 59, 999999000, time.FixedZone("", 14*3600)),
+	time.Date(2000, 2, 29, 12, 0, 0, 0, time.FixedZone("", -3*3600-1800)),
+	time.UnixMilli(1700000000123).UTC(),
+}
 var f32Pool = []float32{0, 1, -1, 0.5, -0.25, 1024, 65536, 3.0 / 1024}
 
 func pick[T any](r *rand.Rand, p []T) T { return p[r.Intn(len(p))] }
@@ -142,7 +164,7 @@ func genF1(r *rand.Rand, raw bool) f1vals {
 	if raw {
 		sp = binPool
 	}
-	v := f1vals{Str: pick(r, sp), Int: pick(r, intPool), Bool: r.Intn(2) == 0, F64: pick(r, f64Pool), Nst: genNested(r, 1)}
+	v := f1vals{Str: pick(r, sp), Int: pick(r, intPool), Bool: r.Intn(2) == 0, F64: pick(r, f64Pool), Nst: genNested(r, 1), U64: pick(r, u64Pool), T: pick(r, timePool)}
 	switch r.Intn(4) {
 	case 0: // nil
 	case 1:
@@ -177,11 +199,12 @@ func genF2(r *rand.Rand, raw bool) f2vals {
 	if raw {
 		sp = binPool
 	}
-	return f2vals{Str: pick(r, sp), Int: pick(r, intPool), Bool: r.Intn(2) == 0, Nst: genNested(r, 1), F64: pick(r, f64Pool)}
+	return f2vals{Str: pick(r, sp), Int: pick(r, intPool), Bool: r.Intn(2) == 0, Nst: genNested(r, 1), F64: pick(r, f64Pool), T: pick(r, timePool)}
 }
 
 func (e *HashEnt) setF1(v f1vals) {
 	e.Str, e.Int, e.Bool, e.Bytes, e.Vec32, e.Vec64, e.Nst, e.NstS, e.Raw = v.Str, v.Int, v.Bool, v.Bytes, v.Vec32, v.Vec64, v.Nst, v.NstS, v.Raw
+	e.T = v.T
 }
 func (e *HashEnt) setF2(v *f2vals) {
 	if v == nil {
@@ -193,14 +216,17 @@ func (e *HashEnt) setF2(v *f2vals) {
 }
 func (e *HashEnt) setF3(v *f2vals) {
 	if v == nil {
-		e.PNst = nil
+		e.PNst, e.PT = nil, nil
 		return
 	}
 	c := *v
-	e.PNst = &c.Nst
+	e.PNst, e.PT = &c.Nst, &c.T
 }
+func (e *HashEnt) setExp(t time.Time) { e.Exp = t }
+func (e *JSONEnt) setExp(t time.Time) { e.Exp = t }
 func (e *JSONEnt) setF1(v f1vals) {
 	e.Str, e.Int, e.Bool, e.Bytes, e.Strs, e.Vec32, e.Vec64, e.F64, e.Nst, e.NstS, e.Map = v.Str, v.Int, v.Bool, v.Bytes, v.Strs, v.Vec32, v.Vec64, v.F64, v.Nst, v.NstS, v.Map
+	e.U64, e.T = v.U64, v.T
 }
 func (e *JSONEnt) setF2(v *f2vals) {
 	if v == nil {
@@ -212,15 +238,15 @@ func (e *JSONEnt) setF2(v *f2vals) {
 }
 func (e *JSONEnt) setF3(v *f2vals) {
 	if v == nil {
-		e.PNst = nil
+		e.PNst, e.PT = nil, nil
 		return
 	}
 	c := *v
-	e.PNst = &c.Nst
+	e.PNst, e.PT = &c.Nst, &c.T
 }
 
 // diff lists the fields in which two entities differ; nil and empty slices/maps are the same value,
-// time.Time is compared as an instant.
+// time.Time is compared as an instant plus zone offset (what RFC 3339 carries), floats bit by bit.
 func diff(a, b any) []string {
 	va, vb := reflect.ValueOf(a), reflect.ValueOf(b)
 	if va.Kind() == reflect.Ptr {
@@ -237,7 +263,13 @@ func diff(a, b any) []string {
 
 func same(a, b reflect.Value) bool {
 	if t, ok := a.Interface().(time.Time); ok {
-		return t.Equal(b.Interface().(time.Time))
+		u := b.Interface().(time.Time)
+		_, o1 := t.Zone()
+		_, o2 := u.Zone()
+		return t.Equal(u) && o1 == o2
+	}
+	if a.Kind() == reflect.Float64 || a.Kind() == reflect.Float32 {
+		return math.Float64bits(a.Float()) == math.Float64bits(b.Float()) // -0 is not 0, NaN payloads count
 	}
 	if r, ok := a.Interface().(json.RawMessage); ok {
 		var x, y any
@@ -293,17 +325,22 @@ func violate(rep *vh.Report, sig, what string, replay any) {
 type env struct {
 	srv    *fakeredis.Server
 	client rueidis.Client
+	clock  *fakeredis.VirtualClock
 }
 
+// the server's clock is virtual: expiry happens when the driver says so (Tick), never by itself
+var clockStart = time.Date(2031, 3, 4, 5, 6, 7, 0, time.UTC)
+
 func newEnv() *env {
-	srv := fakeredis.NewServer("n1", fakeredis.Options{})
+	vc := fakeredis.NewVirtualClock(clockStart)
+	srv := fakeredis.NewServer("n1", fakeredis.Options{Clock: vc})
 	nw := fakeredis.NewNetwork()
 	nw.Add(addr, srv)
 	c, err := rueidis.NewClient(rueidis.ClientOption{InitAddress: []string{addr}, DialCtxFn: nw.DialCtxFn(), ForceSingleClient: true, DisableRetry: true})
 	if err != nil {
 		panic(err)
 	}
-	return &env{srv: srv, client: c}
+	return &env{srv: srv, client: c, clock: vc}
 }
 
 // repo is the part of om.Repository the driver uses, for either entity type.
@@ -337,24 +374,43 @@ func fetchBoth[T any](r om.Repository[T], key string) (f *T, ferr error, c *T, c
 
 // ---------------------------------------------------------------------------------------------- replay
 
-type pstep struct {
-	Op   string `json:"op"` // New | Fetch | Edit | Save
+// pdoc is a stored document as Om.tla describes it: value ids, expiry in clock ticks (-1 = none / zero time)
+type pdoc struct {
+	Ver  int64  `json:"ver"` // -1: no document
+	F1   string `json:"f1"`
+	F2   string `json:"f2"`
+	F3   string `json:"f3"`
+	Fexp int64  `json:"fexp"` // stored value of the exat field
+	TTL  int64  `json:"ttl"`  // expiry of the key
+}
+
+// pentry is the predicted outcome of one entity of a Save / SaveMulti
+type pentry struct {
 	S    string `json:"s"`
-	F1   string `json:"f1"` // value id written by New/Fetch/Edit
-	F2   string `json:"f2"` // value id or "nil"
-	OK   bool   `json:"ok"` // Save: predicted success
+	Key  string `json:"key"`
+	OK   bool   `json:"ok"`
 	Base int64  `json:"base"`
-	Ver  int64  `json:"ver"`  // stored version after the step (-1: no document)
-	DF1  string `json:"df1"`  // stored value ids after the step
-	DF2  string `json:"df2"`
-	DF3  string `json:"df3"` // pointer-to-struct fields (JSON text in the hash repository)
-	Nf2  bool   `json:"nf2"` // the step is a successful hash Save of a nil f2 over a stored non-nil f2 (HSET keeps the old fields)
+	Nf2  bool   `json:"nf2"`  // successful hash Save of a nil f2 over a stored non-nil f2 of the same key (HSET keeps the old fields)
+	Live bool   `json:"live"` // saved and not removed at once by an expiry that is not in the future
+}
+
+type pstep struct {
+	Op    string          `json:"op"` // Init | New | Fetch | Save | SaveMulti | Tick
+	S     string          `json:"s"`
+	Key   string          `json:"key"`
+	F1    string          `json:"f1"`  // value id written by New/Fetch
+	F2    string          `json:"f2"`  // value id or "nil"
+	Exp   int64           `json:"exp"` // exat written by New/Fetch, clock ticks, -1 = zero time
+	Batch []pentry        `json:"batch"`
+	Seen  map[string]int  `json:"seen"` // key -> 1-based index of the batch entry a Fetch observes afterwards (0: none)
+	Now   int64           `json:"now"`
+	Docs  map[string]pdoc `json:"docs"` // stored documents after the step
 }
 
 type behaviour struct {
 	ID    string  `json:"id"`
 	Repo  string  `json:"repo"`
-	Init  *pstep  `json:"init"` // document existing before the behaviour starts (created through the real repository), or null
+	Init  *pstep  `json:"init"`
 	Steps []pstep `json:"steps"`
 	Src   string  `json:"src"`
 }
@@ -384,18 +440,36 @@ type entity interface {
 	setF1(f1vals)
 	setF2(*f2vals)
 	setF3(*f2vals)
+	setExp(time.Time)
 }
 
 func setKey(e any, key string) { reflect.ValueOf(e).Elem().FieldByName("Key").SetString(key) }
 func getVer(e any) int64       { return reflect.ValueOf(e).Elem().FieldByName("Ver").Int() }
+func getExp(e any) time.Time {
+	return reflect.ValueOf(e).Elem().FieldByName("Exp").Interface().(time.Time)
+}
+
+const tickDur = 10 * time.Minute
 
 type replayer[T any] struct {
-	rep  *vh.Report
-	r    om.Repository[T]
-	kind string
-	vt   *valueTable
-	seq  int
-	div  map[string]int
+	rep    *vh.Report
+	env    *env
+	r      om.Repository[T]
+	kind   string
+	prefix string
+	vt     *valueTable
+	seq    int
+	div    map[string]int
+	t1     time.Time // the instant of clock tick 1 in the current behaviour
+}
+
+// tickTime is the concrete time standing for a clock tick of Om.tla: whole ticks from the start of the behaviour, plus
+// a sub-millisecond part and a zone offset (both must survive the round trip; PEXPIREAT sees the millisecond)
+func (rp *replayer[T]) tickTime(tick int64) time.Time {
+	if tick < 0 {
+		return time.Time{}
+	}
+	return rp.t1.Add(time.Duration(tick-1)*tickDur + 123456*time.Nanosecond).In(time.FixedZone("", 5*3600+1800))
 }
 
 func (rp *replayer[T]) diverge(sig, what string) {
@@ -405,208 +479,371 @@ func (rp *replayer[T]) diverge(sig, what string) {
 	}
 }
 
+func expName(tick, now int64) string {
+	switch {
+	case tick < 0:
+		return "zero"
+	case tick < now:
+		return "past"
+	case tick == now:
+		return "now"
+	}
+	return "future"
+}
+
 func describe(b *behaviour, upto int) string {
 	var sb strings.Builder
 	fmt.Fprintf(&sb, "%s repository", b.Repo)
 	if b.Init != nil {
-		fmt.Fprintf(&sb, ", stored document ver=%d f1=%s f2=%s;", b.Init.Ver, b.Init.DF1, b.Init.DF2)
-	} else {
-		sb.WriteString(", no stored document;")
+		var ks []string
+		for k := range b.Init.Docs {
+			ks = append(ks, k)
+		}
+		sort.Strings(ks)
+		for _, k := range ks {
+			if d := b.Init.Docs[k]; d.Ver >= 0 {
+				fmt.Fprintf(&sb, ", stored %s ver=%d f1=%s f2=%s", k, d.Ver, d.F1, d.F2)
+			} else {
+				fmt.Fprintf(&sb, ", no %s", k)
+			}
+		}
+		sb.WriteString(";")
 	}
+	now := int64(1)
 	for i := 0; i <= upto && i < len(b.Steps); i++ {
 		s := b.Steps[i]
 		switch s.Op {
 		case "Save":
-			fmt.Fprintf(&sb, " %s.Save(base %d)", s.S, s.Base)
+			fmt.Fprintf(&sb, " %s.Save(%s base %d)", s.S, s.Key, s.Batch[0].Base)
+		case "SaveMulti":
+			sb.WriteString(" SaveMulti(")
+			for j, e := range s.Batch {
+				if j > 0 {
+					sb.WriteString(", ")
+				}
+				fmt.Fprintf(&sb, "%s:%s base %d", e.S, e.Key, e.Base)
+			}
+			sb.WriteString(")")
+		case "Tick":
+			sb.WriteString(" Tick")
 		default:
-			fmt.Fprintf(&sb, " %s.%s(f1=%s,f2=%s)", s.S, s.Op, s.F1, s.F2)
+			fmt.Fprintf(&sb, " %s.%s(%s,f1=%s,f2=%s,exat=%s)", s.S, s.Op, s.Key, s.F1, s.F2, expName(s.Exp, now))
 		}
+		now = s.Now
 	}
 	return sb.String()
 }
 
 // expected builds the entity Om.tla predicts to be stored.
-func (rp *replayer[T]) expected(key string, ver int64, f1, f2, f3 string) *T {
+func (rp *replayer[T]) expected(key string, d pdoc) *T {
 	var v T
 	p := any(&v).(entity)
 	setKey(&v, key)
-	reflect.ValueOf(&v).Elem().FieldByName("Ver").SetInt(ver)
-	p.setF1(rp.vt.f1[f1])
-	if f2 == "nil" {
+	reflect.ValueOf(&v).Elem().FieldByName("Ver").SetInt(d.Ver)
+	p.setF1(rp.vt.f1[d.F1])
+	if d.F2 == "nil" {
 		p.setF2(nil)
 	} else {
-		x := rp.vt.f2[f2]
+		x := rp.vt.f2[d.F2]
 		p.setF2(&x)
 	}
-	if f3 == "nil" {
+	if d.F3 == "nil" {
 		p.setF3(nil)
 	} else {
-		x := rp.vt.f2[f3]
+		x := rp.vt.f2[d.F3]
 		p.setF3(&x)
 	}
+	p.setExp(rp.tickTime(d.Fexp))
 	return &v
+}
+
+func (rp *replayer[T]) pexpiretime(ctx context.Context, ckey string) (int64, error) {
+	return rp.env.client.Do(ctx, rp.env.client.B().Pexpiretime().Key(rp.prefix+":"+ckey).Build()).AsInt64()
 }
 
 func (rp *replayer[T]) run(b *behaviour) {
 	rp.seq++
-	key := fmt.Sprintf("e%d", rp.seq)
+	ckey := func(k string) string { return fmt.Sprintf("e%d%s", rp.seq, k) }
 	ents := map[string]*T{}
+	entExp := map[string]int64{} // saver -> the clock tick its entity's exat stands for (wording of reports only)
 	ctx, cancel := cctx()
 	defer cancel()
-	write := func(s pstep, e *T) {
+	rp.t1 = rp.env.clock.Now()
+	write := func(f1, f2 string, exp int64, e *T) {
 		p := any(e).(entity)
-		p.setF1(rp.vt.f1[s.F1])
-		if s.F2 == "nil" {
+		p.setF1(rp.vt.f1[f1])
+		if f2 == "nil" {
 			p.setF2(nil)
 			p.setF3(nil)
 		} else {
-			x := rp.vt.f2[s.F2]
+			x := rp.vt.f2[f2]
 			p.setF2(&x)
 			p.setF3(&x)
 		}
+		p.setExp(rp.tickTime(exp))
 	}
-	curVer, curF1, curF2 := int64(-1), "", ""
-	if b.Init != nil && b.Init.Ver < 0 {
-		b.Init = nil
+	if b.Init == nil {
+		rp.diverge("om-"+rp.kind+":bad-behaviour", "no initial snapshot")
+		return
 	}
-	if b.Init != nil {
+	var keys []string
+	for k := range b.Init.Docs {
+		keys = append(keys, k)
+	}
+	sort.Strings(keys)
+	for _, k := range keys {
+		d := b.Init.Docs[k]
+		if d.Ver < 0 {
+			continue
+		}
 		// the stored document the behaviour starts from: saved Ver times through the real repository
 		e := rp.r.NewEntity()
-		setKey(e, key)
-		write(pstep{F1: b.Init.DF1, F2: b.Init.DF2}, e) // f3 = f2 in every initial document
-		for i := int64(0); i < b.Init.Ver; i++ {
+		setKey(e, ckey(k))
+		write(d.F1, d.F2, d.Fexp, e) // f3 = f2 in every initial document
+		for i := int64(0); i < d.Ver; i++ {
 			if err := rp.r.Save(ctx, e); err != nil {
 				rp.diverge("om-"+rp.kind+":setup-save-failed", fmt.Sprintf("%s: %v", describe(b, -1), err))
 				return
 			}
 		}
-		curVer, curF1, curF2 = b.Init.Ver, b.Init.DF1, b.Init.DF2
+		// the initial document is itself a successful Save with the zero time as exat
+		if _, err := rp.r.Fetch(ctx, ckey(k)); err != nil {
+			if om.IsRecordNotFound(err) {
+				violate(rp.rep, "om-"+rp.kind+":fetch-fails-after-save:Save:exat-zero",
+					fmt.Sprintf("%s: the initial document of key %s was saved %d time(s) successfully with the zero time as exat, yet Fetch says %v", describe(b, -1), k, d.Ver, err), b)
+			} else {
+				rp.diverge("om-"+rp.kind+":setup-fetch-failed", fmt.Sprintf("%s: %v", describe(b, -1), err))
+			}
+			return
+		}
 	}
-	winners := map[int64]string{}
+	cur := b.Init.Docs
+	now := int64(1)
 	for i, s := range b.Steps {
 		where := func() string { return describe(b, i) }
+		var saved []*T // copies of the entities as they were handed to Save/SaveMulti, version advanced where the save succeeded
+		var errs []error
 		switch s.Op {
 		case "New":
 			e := rp.r.NewEntity()
-			setKey(e, key)
-			write(s, e)
-			ents[s.S] = e
+			setKey(e, ckey(s.Key))
+			write(s.F1, s.F2, s.Exp, e)
+			ents[s.S], entExp[s.S] = e, s.Exp
+			continue
 		case "Fetch":
-			e, err := rp.r.Fetch(ctx, key)
+			e, err := rp.r.Fetch(ctx, ckey(s.Key))
 			if err != nil {
 				rp.diverge("om-"+rp.kind+":fetch-failed", fmt.Sprintf("%s: %v", where(), err))
 				return
 			}
-			write(s, e)
-			ents[s.S] = e
-		case "Edit":
-			write(s, ents[s.S])
-		case "Save":
-			e := ents[s.S]
-			base := getVer(e)
-			if base != s.Base {
-				rp.diverge("om-"+rp.kind+":base-version-differs", fmt.Sprintf("%s: entity version %d, specification %d", where(), base, s.Base))
-				return
+			write(s.F1, s.F2, s.Exp, e)
+			ents[s.S], entExp[s.S] = e, s.Exp
+			continue
+		case "Tick":
+			rp.env.clock.Advance(tickDur)
+			rp.env.srv.ExpireNow()
+		case "Save", "SaveMulti":
+			var batch []*T
+			for _, pe := range s.Batch {
+				e := ents[pe.S]
+				if getVer(e) != pe.Base {
+					rp.diverge("om-"+rp.kind+":base-version-differs", fmt.Sprintf("%s: entity version of %s is %d, specification %d", where(), pe.S, getVer(e), pe.Base))
+					return
+				}
+				c := *e
+				saved = append(saved, &c)
+				batch = append(batch, e)
 			}
-			saved := *e
-			err := rp.r.Save(ctx, e)
-			switch {
-			case err == nil:
-				if prev, dup := winners[base]; dup || !s.OK {
-					who := prev
-					if !dup {
-						who = "an earlier writer"
+			if s.Op == "Save" {
+				errs = []error{rp.r.Save(ctx, batch[0])}
+			} else {
+				errs = rp.r.SaveMulti(ctx, batch...)
+				if len(errs) != len(batch) {
+					violate(rp.rep, "om-"+rp.kind+":savemulti-result-count", fmt.Sprintf("%s: %d results for %d entities", where(), len(errs), len(batch)), b)
+					return
+				}
+			}
+			for j, pe := range s.Batch {
+				who := fmt.Sprintf("entity %d of the batch (%s, key %s, base %d)", j+1, pe.S, pe.Key, pe.Base)
+				switch err := errs[j]; {
+				case err == nil:
+					if !pe.OK {
+						violate(rp.rep, "om-"+rp.kind+":save-succeeds-from-stale-version",
+							fmt.Sprintf("%s: %s: this Save succeeded although the stored version was %d, not its base; the specification predicts ErrVersionMismatch", where(), who, cur[pe.Key].Ver), b)
+						return
 					}
-					violate(rp.rep, "om-"+rp.kind+":save-succeeds-from-stale-version",
-						fmt.Sprintf("%s: this Save succeeded although the stored version was %d, not its base %d (%s already saved from that base); the specification predicts ErrVersionMismatch", where(), curVer, base, who), b)
+					if getVer(batch[j]) != pe.Base+1 {
+						violate(rp.rep, "om-"+rp.kind+":entity-version-not-plus-one",
+							fmt.Sprintf("%s: %s: Save succeeded and left the entity at version %d", where(), who, getVer(batch[j])), b)
+						return
+					}
+					reflect.ValueOf(saved[j]).Elem().FieldByName("Ver").SetInt(pe.Base + 1)
+				case errors.Is(err, om.ErrVersionMismatch):
+					if pe.OK {
+						rp.diverge("om-"+rp.kind+":spurious-version-mismatch", fmt.Sprintf("%s: %s: ErrVersionMismatch although the specification predicts success", where(), who))
+						return
+					}
+					if getVer(batch[j]) != pe.Base {
+						violate(rp.rep, "om-"+rp.kind+":failed-save-changes-entity", fmt.Sprintf("%s: %s: ErrVersionMismatch, entity version now %d", where(), who, getVer(batch[j])), b)
+						return
+					}
+				default:
+					rp.diverge("om-"+rp.kind+":save-error", fmt.Sprintf("%s: %s: %v", where(), who, err))
 					return
 				}
-				winners[base] = s.S
-				if getVer(e) != base+1 {
-					violate(rp.rep, "om-"+rp.kind+":entity-version-not-plus-one",
-						fmt.Sprintf("%s: Save succeeded from version %d and left the entity at version %d", where(), base, getVer(e)), b)
-					return
-				}
-				reflect.ValueOf(&saved).Elem().FieldByName("Ver").SetInt(base + 1)
-			case errors.Is(err, om.ErrVersionMismatch):
-				if s.OK {
-					rp.diverge("om-"+rp.kind+":spurious-version-mismatch", fmt.Sprintf("%s: ErrVersionMismatch although stored version %d equals the base", where(), curVer))
-					return
-				}
-			default:
-				rp.diverge("om-"+rp.kind+":save-error", fmt.Sprintf("%s: %v", where(), err))
+			}
+		}
+		// read every stored document back and compare with the saved entity and with the specification's document
+		for _, k := range keys {
+			want := s.Docs[k]
+			f, ferr, c, cerr := fetchBoth(rp.r, ckey(k))
+			var pe *pentry
+			var sv *T
+			if n := s.Seen[k]; n > 0 {
+				pe, sv = &s.Batch[n-1], saved[n-1]
+			}
+			how := s.Op
+			exat := ""
+			if pe != nil {
+				exat = expName(entExp[pe.S], now)
+			}
+			if ferr != nil && !om.IsRecordNotFound(ferr) || cerr != nil && !om.IsRecordNotFound(cerr) {
+				rp.diverge("om-"+rp.kind+":fetch-error", fmt.Sprintf("%s: Fetch %v FetchCache %v", where(), ferr, cerr))
 				return
 			}
-			// read the stored document back
-			f, ferr, c, cerr := fetchBoth(rp.r, key)
-			if ferr != nil || cerr != nil {
-				rp.diverge("om-"+rp.kind+":fetch-after-save-failed", fmt.Sprintf("%s: Fetch %v FetchCache %v", where(), ferr, cerr))
+			if (ferr == nil) != (cerr == nil) {
+				violate(rp.rep, "om-"+rp.kind+":fetchcache-differs-from-fetch:existence",
+					fmt.Sprintf("%s: 2 s after the step Fetch(%s) says %v and FetchCache says %v", where(), k, ferr, cerr), b)
+				return
+			}
+			switch {
+			case want.Ver < 0 && ferr == nil:
+				switch {
+				case pe != nil:
+					violate(rp.rep, "om-"+rp.kind+":save-with-passed-expiry-stays:"+how+":exat-"+exat,
+						fmt.Sprintf("%s: key %s was saved with an expiry that is not in the future; the specification predicts that the key is gone, Fetch returns %s", where(), k, dump(f)), b)
+				case s.Op == "Tick":
+					violate(rp.rep, "om-"+rp.kind+":document-outlives-expiry",
+						fmt.Sprintf("%s: the expiry of key %s has passed, Fetch still returns %s", where(), k, dump(f)), b)
+				default:
+					rp.diverge("om-"+rp.kind+":unexpected-document", fmt.Sprintf("%s: key %s exists, the specification has none", where(), k))
+				}
+				return
+			case want.Ver < 0:
+				continue
+			case ferr != nil:
+				switch {
+				case pe != nil:
+					violate(rp.rep, "om-"+rp.kind+":fetch-fails-after-save:"+how+":exat-"+exat,
+						fmt.Sprintf("%s: the save of key %s succeeded and its expiry has not passed, yet Fetch says %v (FetchCache %v)", where(), k, ferr, cerr), b)
+				case s.Op == "Tick":
+					violate(rp.rep, "om-"+rp.kind+":document-expires-early",
+						fmt.Sprintf("%s: key %s is gone although its expiry (tick %d) has not been reached (now %d)", where(), k, want.TTL, s.Now), b)
+				default:
+					violate(rp.rep, "om-"+rp.kind+":failed-save-removes-document",
+						fmt.Sprintf("%s: no save of key %s succeeded in this step, yet the document is gone", where(), k), b)
+				}
 				return
 			}
 			if d := diff(f, c); len(d) > 0 {
 				violate(rp.rep, "om-"+rp.kind+":fetchcache-differs-from-fetch:"+strings.Join(d, ","),
-					fmt.Sprintf("%s: 2 s after the Save FetchCache still differs from Fetch in %v", where(), d), b)
+					fmt.Sprintf("%s: 2 s after the step FetchCache(%s) still differs from Fetch in %v", where(), k, d), b)
 				return
 			}
-			if err == nil {
-				if getVer(f) != base+1 {
+			if pe != nil {
+				if getVer(f) != pe.Base+1 {
 					violate(rp.rep, "om-"+rp.kind+":stored-version-not-plus-one",
-						fmt.Sprintf("%s: Save succeeded from version %d, stored version is %d", where(), base, getVer(f)), b)
+						fmt.Sprintf("%s: key %s saved from version %d, stored version is %d", where(), k, pe.Base, getVer(f)), b)
 					return
 				}
-				if d := diff(&saved, f); len(d) > 0 {
-					if s.Nf2 && onlyPointers(d) {
+				if d := diff(sv, f); len(d) > 0 {
+					switch {
+					case pe.Nf2 && onlyPointers(d):
 						// Om.tla models this (HSET never removes a field): report it and go on with the behaviour
 						violate(rp.rep, "om-"+rp.kind+":nil-pointer-save-keeps-old-value:"+strings.Join(d, ","),
-							fmt.Sprintf("%s: Save succeeded with nil pointer fields over stored values; Fetch afterwards still returns the old values of %v", where(), d), b)
-					} else {
+							fmt.Sprintf("%s: Save succeeded with nil pointer fields over stored values of the same key %s; Fetch afterwards still returns the old values of %v", where(), k, d), b)
+					case s.Op == "SaveMulti":
+						violate(rp.rep, "om-"+rp.kind+":savemulti-differs-from-save:"+strings.Join(d, ","),
+							fmt.Sprintf("%s: entity %d of the batch was saved to key %s; Fetch afterwards differs from it in %v (the specification: a batch is the sequence of its single saves); saved %s fetched %s",
+								where(), s.Seen[k], k, d, dump(sv), dump(f)), b)
+						return
+					default:
 						violate(rp.rep, "om-"+rp.kind+":fetch-differs-from-saved:"+strings.Join(d, ","),
-							fmt.Sprintf("%s: Save succeeded; Fetch afterwards differs from the saved entity in %v", where(), d), b)
+							fmt.Sprintf("%s: Save succeeded; Fetch(%s) afterwards differs from the saved entity in %v", where(), k, d), b)
 						return
 					}
 				}
 			}
-			want := rp.expected(key, s.Ver, s.DF1, s.DF2, s.DF3)
-			if d := diff(want, f); len(d) > 0 {
-				if err != nil {
-					violate(rp.rep, "om-"+rp.kind+":failed-save-changes-document:"+strings.Join(d, ","),
-						fmt.Sprintf("%s: Save returned ErrVersionMismatch, yet the stored document changed in %v", where(), d), b)
+			if d := diff(rp.expected(ckey(k), want), f); len(d) > 0 {
+				if pe == nil {
+					violate(rp.rep, "om-"+rp.kind+":document-changes-without-successful-save:"+strings.Join(d, ","),
+						fmt.Sprintf("%s: no save of key %s succeeded in this step, yet the stored document changed in %v", where(), k, d), b)
 				} else {
-					rp.diverge("om-"+rp.kind+":stored-document-mismatch", fmt.Sprintf("%s: stored document differs from the specification's in %v", where(), d))
+					rp.diverge("om-"+rp.kind+":stored-document-mismatch", fmt.Sprintf("%s: stored document %s differs from the specification's in %v", where(), k, d))
 				}
 				return
 			}
-			curVer, curF1, curF2 = s.Ver, s.DF1, s.DF2
+			// the key's expiry
+			at, err := rp.pexpiretime(ctx, ckey(k))
+			if err != nil {
+				rp.diverge("om-"+rp.kind+":pexpiretime-error", fmt.Sprintf("%s: %v", where(), err))
+				return
+			}
+			wantAt := int64(-1)
+			if want.TTL >= 0 {
+				wantAt = rp.tickTime(want.TTL).UnixMilli()
+			}
+			if at != wantAt {
+				if pe != nil && !getExp(sv).IsZero() {
+					violate(rp.rep, "om-"+rp.kind+":expiry-not-applied:"+how,
+						fmt.Sprintf("%s: key %s saved with exat %s; PEXPIRETIME says %d, the specification %d", where(), k, getExp(sv).Format(time.RFC3339Nano), at, wantAt), b)
+				} else {
+					violate(rp.rep, "om-"+rp.kind+":expiry-changes-without-exat:"+how,
+						fmt.Sprintf("%s: PEXPIRETIME of key %s is %d, the specification predicts %d (a save with the zero time keeps the expiry the key had)", where(), k, at, wantAt), b)
+				}
+				return
+			}
 		}
+		cur = s.Docs
+		now = s.Now
 	}
-	_, _ = curF1, curF2
 	rp.rep.Traces++
 }
 
-func replayAll[T any](rep *vh.Report, e *env, kind string, r om.Repository[T], bs []*behaviour, shapes map[string]bool) {
-	rp := &replayer[T]{rep: rep, r: r, kind: kind, vt: newValueTable(vh.Rng(40), kind == "hash"), div: map[string]int{}}
+func shape(b *behaviour) string {
+	var sb strings.Builder
+	for _, s := range b.Steps {
+		sb.WriteString(s.Op[:1])
+		if s.Op == "SaveMulti" {
+			sb.WriteString("M")
+		}
+		for _, e := range s.Batch {
+			switch {
+			case e.OK && e.Live:
+				sb.WriteString("+")
+			case e.OK:
+				sb.WriteString("x")
+			default:
+				sb.WriteString("-")
+			}
+		}
+	}
+	return sb.String()
+}
+
+func replayAll[T any](rep *vh.Report, e *env, kind, prefix string, r om.Repository[T], bs []*behaviour, shapes map[string]bool) {
+	rp := &replayer[T]{rep: rep, env: e, r: r, kind: kind, prefix: prefix, vt: newValueTable(vh.Rng(40), kind == "hash"), div: map[string]int{}}
 	for i, b := range bs {
 		nv := len(rep.Violations)
 		rp.run(b)
 		rep.Evaluations++
 		if len(rep.Violations) == nv {
-			var sb strings.Builder
-			for _, s := range b.Steps {
-				sb.WriteString(s.Op[:1])
-				if s.Op == "Save" {
-					if s.OK {
-						sb.WriteString("+")
-					} else {
-						sb.WriteString("-")
-					}
-				}
-			}
-			shapes[kind+":"+sb.String()] = true
-			if i%1499 == 0 {
+			shapes[kind+":"+shape(b)] = true
+			if i%2999 == 0 {
 				rep.Sample(map[string]any{"behaviour": describe(b, len(b.Steps)), "src": b.Src, "last": b.Steps[len(b.Steps)-1]})
 			}
 		}
-		if len(rep.Violations) > 8 {
+		if len(rep.Violations) > 12 {
 			break
 		}
 	}
@@ -641,10 +878,10 @@ func replay(rep *vh.Report) {
 	e := newEnv()
 	defer e.client.Close()
 	shapes := map[string]bool{}
-	replayAll(rep, e, "hash", om.NewHashRepository("h", HashEnt{}, e.client), hash, shapes)
-	replayAll(rep, e, "json", om.NewJSONRepository("j", JSONEnt{}, e.client), jsn, shapes)
+	replayAll(rep, e, "hash", "h", om.NewHashRepository("h", HashEnt{}, e.client), hash, shapes)
+	replayAll(rep, e, "json", "j", om.NewJSONRepository("j", JSONEnt{}, e.client), jsn, shapes)
 	rep.DistinctNontrivial = len(shapes)
-	rep.Rule = "replay: distinct (repository, sequence of New/Fetch/Edit/Save steps with the outcome of every Save) among the behaviours replayed to completion"
+	rep.Rule = "replay: distinct (repository, sequence of New/Fetch/Save/SaveMulti/Tick steps with the outcome of every saved entity: + stored, x stored and removed at once by a passed expiry, - ErrVersionMismatch) among the behaviours replayed to completion"
 }
 
 // ---------------------------------------------------------------------------------------------- roundtrip
@@ -667,7 +904,7 @@ func roundtripOne[T any](rep *vh.Report, kind string, r om.Repository[T], rng *r
 		p.setF3(f2)
 		exp := reflect.ValueOf(e).Elem().FieldByName("Exp")
 		if rng.Intn(3) == 0 {
-			exp.Set(reflect.ValueOf(time.UnixMilli(time.Now().Add(time.Hour).UnixMilli() + rng.Int63n(1000)).UTC()))
+			exp.Set(reflect.ValueOf(time.UnixMilli(clockStart.Add(time.Hour).UnixMilli() + rng.Int63n(1000)).UTC()))
 		} else {
 			exp.Set(reflect.ValueOf(time.Time{}))
 		}
@@ -765,6 +1002,8 @@ func main() {
 		replay(rep)
 	case "roundtrip":
 		roundtrip(rep)
+	case "types":
+		typesMode(rep)
 	default:
 		panic("mode")
 	}
